@@ -181,7 +181,68 @@ def einsums(tier="quick"):
     return out
 
 
+# ------------------------------------------------------------------ graphs for key histories
+
+def fresh_kernel(which="axpb"):
+    """a NEW loopy kernel object (nothing cached on it yet), with inames, a value argument, two outputs"""
+    import loopy as lp
+    f64 = np.float64
+
+    def vec(name, out=False):
+        return lp.GlobalArg(name, dtype=f64, shape=(4,), is_input=not out)
+    if which == "twice":
+        return lp.make_kernel("{[i]: 0<=i<4}", "out[i] = 2*a[i]", [vec("a"), vec("out", True)],
+                              name="twice", lang_version=(2018, 2))
+    return lp.make_kernel(
+        "{[i, j]: 0<=i<4 and 0<=j<3}", "out[i] = alpha*a[i] + sum(j, b[i]*j)\nout2[i] = a[i] - b[i]",
+        [vec("a"), vec("b"), lp.ValueArg("alpha", dtype=f64), vec("out", True), vec("out2", True)],
+        name="axpb", lang_version=(2018, 2))
+
+
+def history_builders():
+    """label -> thunk building a NEW graph (new node objects, new kernels) every time"""
+    import pytato as pt
+    from pytato.distributed.nodes import make_distributed_recv, staple_distributed_send
+    from pytato.loopy import call_loopy
+
+    from . import kinds
+
+    def ph(n, shape=(4,)):
+        return pt.make_placeholder(n, shape, np.float64)
+
+    def loopy1():
+        lc = call_loopy(fresh_kernel("axpb"), {"a": ph("a") * 2, "b": ph("b"), "alpha": 0.5})
+        return pt.make_dict_of_named_arrays({"o": lc["out"] + 1, "p": lc["out2"]})
+
+    def loopy2():
+        r = call_loopy(fresh_kernel("twice"), {"a": ph("a")})["out"]
+        return call_loopy(fresh_kernel("twice"), {"a": r.tagged(kinds.VFooTag())})["out"]
+
+    def calls():
+        def f(u, v):
+            return {"s": pt.sin(u) + v, "t": u * v}
+        r = pt.trace_call(f, ph("x"), ph("y") + 1)
+        return pt.make_dict_of_named_arrays({"a": r["s"], "b": pt.trace_call(f, r["t"], ph("x"))["s"]})
+
+    def data():
+        d = pt.make_data_wrapper(np.arange(4.0)).tagged(kinds.VBarTag())
+        return (d + ph("x")).with_tagged_axis(0, kinds.VFooTag()) * pt.make_data_wrapper(np.float64(2.5))
+
+    def dist():
+        r = make_distributed_recv(1, 7, (4,), np.float64)
+        return staple_distributed_send(r * 2, 2, 9, stapled_to=r + ph("x"))
+
+    def mixed():
+        lc = call_loopy(fresh_kernel("twice"), {"a": pt.make_data_wrapper(np.ones(4))})["out"]
+        return pt.make_dict_of_named_arrays({"l": lc, "e": pt.einsum("i,i->", lc, ph("x")),
+                                             "r": pt.reshape(pt.stack([lc, ph("x")]), (2, 2, 2), order="F")})
+    return {"loopy-call-two-results": loopy1, "loopy-call-chain": loopy2, "function-calls": calls,
+            "data-wrappers-and-tags": data, "distributed": dist, "mixed": mixed}
+
+
 def build(name, tier="quick"):
+    if name == "history-graphs":
+        return [(lbl, g, g) for lbl, g in ((k, th()) for k, th in history_builders().items())]
     """[(label, graph, …)]"""
     if name == "callables":
         return callables(tier)
